@@ -5,6 +5,7 @@ import (
 	"encoding/json"
 	"fmt"
 	"math"
+	"sort"
 	"strconv"
 	"strings"
 
@@ -90,6 +91,8 @@ type obsCase struct {
 	Path  []histStep `json:"path"`
 	Which int        `json:"which"`
 	Big   bool       `json:"big,omitempty"` // the 60-row frame
+	// Perm: the initial frame Init laid out physically in this permutation (logical order restored by Sort)
+	Perm []int `json:"perm,omitempty"`
 	// pair check: second frame
 	Pair   bool       `json:"pair,omitempty"`
 	Init2  int        `json:"init2,omitempty"`
@@ -518,6 +521,49 @@ func twin(o model.Frame, mut string) (qframe.QFrame, bool) {
 			return qframe.QFrame{}, false
 		}
 		t.Cols[0], t.Cols[1] = t.Cols[1], t.Cols[0]
+	case "enumperm", "enumswap":
+		// a declared enum type with the same values in another order: "enumperm" keeps the cells
+		// (Equal), "enumswap" also maps the cells through the permutation so that the internal
+		// codes coincide with the original's while the strings differ (not Equal)
+		done := false
+		for ci := range t.Cols {
+			if t.Cols[ci].Kind != model.Enum {
+				continue
+			}
+			var vals []string
+			for _, c := range t.Cols[ci].Cells {
+				if !c.Null && !containsStr(vals, c.S) {
+					vals = append(vals, c.S)
+				}
+			}
+			if len(vals) < 2 {
+				continue
+			}
+			sort.Strings(vals)
+			rev := make([]string, len(vals))
+			for i, v := range vals {
+				rev[len(vals)-1-i] = v
+			}
+			if mut == "enumswap" {
+				for ri, c := range t.Cols[ci].Cells {
+					if !c.Null {
+						for i, v := range vals {
+							if v == c.S {
+								t.Cols[ci].Cells[ri] = model.S(rev[i])
+							}
+						}
+					}
+				}
+			}
+			// the original declares its values in sorted order in these frames; the twin in reverse order
+			t.Cols[ci].EnumVals = rev
+			done = true
+		}
+		if !done {
+			return qframe.QFrame{}, false
+		}
+		q := model.Build(t)
+		return q, q.Err == nil
 	}
 	for ci := range t.Cols {
 		if t.Cols[ci].Kind == model.Enum && mut != "type" {
@@ -526,6 +572,13 @@ func twin(o model.Frame, mut string) (qframe.QFrame, bool) {
 	}
 	q := model.Build(t)
 	return q, q.Err == nil
+}
+
+// c09InitModel is the model form of the C01 initial frame (declared enum values adopted).
+func c09InitModel(init int) model.Frame {
+	o := model.Observe(newHistEnv().initial(init))
+	o.AdoptMeta(model.Frame{Cols: []model.Col{{Name: "e", Kind: model.Enum, EnumVals: []string{"hi", "lo", "mid"}}}})
+	return o
 }
 
 func c09BigFrame() qframe.QFrame {
@@ -553,6 +606,8 @@ func (c obsCase) frames() (qframe.QFrame, qframe.QFrame, error) {
 	var err error
 	if c.Big {
 		a = c09BigFrame()
+	} else if c.Perm != nil {
+		a = model.BuildPermuted(c09InitModel(c.Init), c.Perm)
 	} else if a, err = c09Rebuild(c.Init, c.Path, c.Which); err != nil {
 		return a, b, err
 	}
@@ -670,7 +725,7 @@ func c09Run(ctx *core.Ctx) {
 				ctx.Sample(map[string]interface{}{"init": init, "path": pathString(ff.path), "frame": o.String()})
 			}
 			// twins
-			for _, mut := range []string{"same", "cell", "name", "type", "order"} {
+			for _, mut := range []string{"same", "cell", "name", "type", "order", "enumperm", "enumswap"} {
 				t, ok := twin(o, mut)
 				if !ok {
 					continue
@@ -718,6 +773,27 @@ func c09Run(ctx *core.Ctx) {
 			}
 		}
 	}
+	// every physical arrangement of the 5-row and 4-row initial frames (all permutations)
+	for _, init := range []int{0, 3} {
+		m := c09InitModel(init)
+		forEachPerm(m.N, func(p []int) {
+			if !ctx.Mine() {
+				return
+			}
+			perm := cloneInts(p)
+			c := obsCase{Init: init, Perm: perm}
+			qf := model.BuildPermuted(m, perm)
+			ctx.Exec(c, func() *core.Failure { return checkObservers(qf) })
+			ctx.Outcome("observers/permuted-layout")
+			ctx.Nontrivial(fmt.Sprintf("perm/%d/%v", init, perm))
+			for _, mut := range []string{"same", "cell", "enumperm", "enumswap"} {
+				if t, ok := twin(model.Observe(qf), mut); ok {
+					pc := obsCase{Init: init, Perm: perm, Pair: true, Twin: "twin-" + mut}
+					ctx.Exec(pc, func() *core.Failure { return checkEqualsPair(qf, t) })
+				}
+			}
+		})
+	}
 	if ctx.Mine() {
 		ctx.Exec(obsCase{Big: true}, func() *core.Failure { return checkObservers(c09BigFrame()) })
 		ctx.Outcome("observers/60rows")
@@ -740,8 +816,8 @@ func init() {
 	core.Register(&core.Check{
 		ID:    "C09",
 		Level: "model_checking",
-		Rule: "frames = every non-error frame reachable from 4 initial frames by <= D steps of the C01 operation alphabet (arbitrary physical indexes), plus a 60-row frame. Per frame: Len, ColumnNames/Types/TypeMap/Contains, view Len/Slice vs ItemAt, ToCSV (parsed by a reference RFC 4180 parser), ToJSON (token stream), String (fixed-width parse) all compared with the typed views; " +
-			"Equals vs cell-wise model equality and symmetry on the frame's New-rebuilt twin and four mutated twins (one cell / name / type / column order), on every ordered pair of frames within depth P, and congruence (Equal twins give Equal results) under every frame operation. " +
+		Rule: "frames = every non-error frame reachable from 4 initial frames by <= D steps of the C01 operation alphabet (arbitrary physical indexes), plus every physical permutation of the 5-row and 4-row initial frames and a 60-row frame. Per frame: Len, ColumnNames/Types/TypeMap/Contains, view Len/Slice vs ItemAt, ToCSV (parsed by a reference RFC 4180 parser), ToJSON (token stream), String (fixed-width parse) all compared with the typed views; " +
+			"Equals vs cell-wise model equality and symmetry on the frame's New-rebuilt twin and six mutated twins (one cell / name / type / column order / enum declared in another order with the same cells / enum codes preserved but strings swapped), on every ordered pair of frames within depth P, and congruence (Equal twins give Equal results) under every frame operation. " +
 			"Non-trivial/distinct = distinct frame observations; distinct pairs of different frames that are Equal.",
 		Assumptions: []string{
 			"typed views' ItemAt is the reference observation; the other observers are compared with it",
